@@ -239,3 +239,70 @@ def _labels(ctx):
     ctx.rule("C21.R7", "the binary reader and the text parser construct every definition with the argument shape of its class", floor=20)
     n = component_arity(ctx, "C21.R7", [RD, "ppci/wasm/text/parser.py"])
     ctx.need(n >= 20, "component constructions in reader/parser not found (%d)" % n)
+    _locals_order(ctx)
+
+
+def _locals_order(ctx):
+    """R8: a function's locals are stored as a vector of (count, type) groups; local index k is the k-th element of
+    the concatenation.  The writer may only merge NEIGHBOURING locals of one type, the reader expands groups in order."""
+    from ..core import last_name
+    ctx.rule("C21.R8", "function locals: the writer groups only adjacent locals of equal type (run-length, in declaration order) and the reader expands the groups in order, so every local keeps its index and type", floor=6)
+    fn = ctx.fn(WR, "BinaryFileWriter.write_func_definition")
+    site = WR + ":BinaryFileWriter.write_func_definition"
+    loops = [l for l in walk_no_nested(fn) if isinstance(l, ast.For) and norm(l.iter).endswith(".locals")]
+    ctx.need(len(loops) == 1, "write_func_definition: loop over func.locals not found")
+    loop = loops[0]
+    ty = [norm(e) for e in (loop.target.elts if isinstance(loop.target, ast.Tuple) else [loop.target])][-1]
+    # the group container: a list created empty before the loop
+    apps = [c for c in ast.walk(loop) if isinstance(c, ast.Call) and last_name(c) == "append" and isinstance(c.func, ast.Attribute)]
+    ok = len(apps) == 1 and isinstance(apps[0].func.value, ast.Name)
+    ctx.ob("C21.R8", site, "groups are collected by appending to one list (an ordered sequence of groups: a mapping keyed by type would merge locals that are not neighbours)", ok, construct="groups-are-a-list",
+           detail="; ".join(norm(c)[:60] for c in apps) or "no append in the loop")
+    if not ok:
+        return
+    G = apps[0].func.value.id
+    init = [n for n in walk_no_nested(fn) if isinstance(n, ast.Assign) and norm(n.targets[0]) == G]
+    ctx.ob("C21.R8", site, "the group list starts empty", len(init) == 1 and isinstance(init[0].value, ast.List) and not init[0].value.elts and init[0].lineno < loop.lineno, construct="groups-start-empty")
+    new = apps[0].args[0] if apps[0].args else None
+    ok = isinstance(new, ast.Tuple) and len(new.elts) == 2 and try_const(new.elts[0]) == 1 and norm(new.elts[1]) == ty
+    ctx.ob("C21.R8", site, "a local that does not continue the current run opens a new group (1, its type) at the end", ok, construct="new-group", detail=norm(new) if new is not None else "")
+    # every other store to the list is to its LAST element, under a test that compares the LAST group's type with this local's type
+    stores = [n for n in ast.walk(loop) if isinstance(n, (ast.Assign, ast.AugAssign)) for t in (n.targets if isinstance(n, ast.Assign) else [n.target]) if isinstance(t, ast.Subscript) and norm(t.value).startswith(G)]
+    from ..flow import controlling
+    bad = []
+    for n in stores:
+        t = n.targets[0] if isinstance(n, ast.Assign) else n.target
+        last = norm(t).startswith(G + "[-1]")
+        conds = [(" ".join(norm(c).split()), pol) for c, pol, _ in controlling(n, fn)]
+        guarded = any(pol is True and ("%s[-1][1] == %s" % (G, ty) in c or "%s == %s[-1][1]" % (ty, G) in c) for c, pol in conds)
+        keeps_type = isinstance(n, ast.AugAssign) or (isinstance(n.value, ast.Tuple) and len(n.value.elts) == 2 and norm(n.value.elts[1]) in (ty, "%s[-1][1]" % G))
+        plus_one = isinstance(n, ast.Assign) and isinstance(n.value, ast.Tuple) and " ".join(norm(n.value.elts[0]).split()) in ("%s[-1][0] + 1" % G, "1 + %s[-1][0]" % G)
+        if not (last and guarded and keeps_type and plus_one):
+            bad.append(n)
+    ctx.ob("C21.R8", site, "a run is extended only at the LAST group, only when that group has this local's type, by exactly one", len(stores) == 1 and not bad, construct="extend-last-run-only", node=bad[0] if bad else None,
+           detail="%d store(s) into the group list" % len(stores))
+    out = [l for l in walk_no_nested(fn) if isinstance(l, ast.For) and norm(l.iter) == G]
+    ok = len(out) == 1 and isinstance(out[0].target, ast.Tuple) and len(out[0].target.elts) == 2
+    if ok:
+        c, t = (norm(e) for e in out[0].target.elts)
+        calls = [x for x in ast.walk(out[0]) if isinstance(x, ast.Call) and last_name(x) in ("write_vu32", "write_type")]
+        ok = [(last_name(x), norm(x.args[0])) for x in sorted(calls, key=lambda x: (x.lineno, x.col_offset))] == [("write_vu32", c), ("write_type", t)]
+        cnt = [x for x in walk_no_nested(fn) if isinstance(x, ast.Call) and last_name(x) == "write_vu32" and norm(x.args[0]) == "len(%s)" % G]
+        ok = ok and len(cnt) == 1 and cnt[0].lineno < out[0].lineno
+    ctx.ob("C21.R8", site, "the groups are written in list order, preceded by their number: count then type", ok, construct="groups-written-in-order")
+    rd = ctx.fn(RD, "BinaryFileReader.read_func_definition")
+    site = RD + ":BinaryFileReader.read_func_definition"
+    ext = [c for c in ast.walk(rd) if isinstance(c, ast.Call) and last_name(c) == "extend"]
+    ok = len(ext) == 1
+    if ok:
+        a = ext[0].args[0]
+        ok = isinstance(a, ast.BinOp) and isinstance(a.op, ast.Mult)
+        loopr = [l for l in ast.walk(rd) if isinstance(l, ast.For) and any(x is ext[0] for x in ast.walk(l))]
+        reads = [n for l in loopr[:1] for n in l.body if isinstance(n, ast.Assign) and isinstance(n.value, ast.Call)]
+        order = [last_name(n.value) for n in reads]
+        ok = ok and order[:2] == ["read_uint", "read_type"]
+        if ok:
+            cvar, tvar = norm(reads[0].targets[0]), norm(reads[1].targets[0])
+            lst, mul = (a.left, a.right) if isinstance(a.left, ast.List) else (a.right, a.left)
+            ok = isinstance(lst, ast.List) and len(lst.elts) == 1 and norm(mul) == cvar and tvar in norm(lst.elts[0])
+    ctx.ob("C21.R8", site, "the reader appends count copies of the group's type, group after group (count read before type)", ok, construct="reader-expands-in-order")
